@@ -75,6 +75,7 @@ type caseCfg struct {
 	restartOn bool // stop + reopen after the injected failure
 	boundary  bool // long chain: payments placed at recovery batch boundaries
 	creation  int  // height whose timestamp is the creation time
+	resume    bool // long chain; the first FilterBlocks call of the SECOND batch fails: the retry resumes from persisted state
 }
 
 func runCase(r *evid.Run, dir string, cs int64, idx int) {
@@ -85,7 +86,12 @@ func runCase(r *evid.Run, dir string, cs int64, idx int) {
 		c.failAt = 1 + rg.Intn(6)
 		c.restartOn = rg.Intn(2) == 0
 	}
-	if idx == 0 || (!r.Quick() && rg.Intn(25) == 0) {
+	if idx == 1 || idx == 2 || (!r.Quick() && rg.Intn(25) == 0) {
+		c.resume = true
+		c.restartOn = idx == 2 || (idx > 2 && rg.Intn(2) == 0)
+		c.failAt = 0
+	}
+	if idx == 0 || c.resume || (!r.Quick() && rg.Intn(25) == 0) {
 		c.boundary = true
 		c.blocks = 2050 + rg.Intn(200)
 		if !r.Quick() && rg.Intn(2) == 0 {
@@ -96,6 +102,11 @@ func runCase(r *evid.Run, dir string, cs int64, idx int) {
 	c.creation = 1 + rg.Intn(c.blocks/3+1)
 	if rg.Intn(6) == 0 {
 		c.creation = 0 // creation time before the first block
+	}
+	if c.resume {
+		// the second batch must exist: birthday close to the start of the chain
+		c.creation = 300 + rg.Intn(40)
+		c.blocks = 2400 + rg.Intn(300)
 	}
 	params := wh.Params(5)
 	ch := fakechain.New(params)
@@ -127,6 +138,7 @@ func runCase(r *evid.Run, dir string, cs int64, idx int) {
 		after int
 	}
 	var boundaryOps []bop
+	favScope, favBranch := waddrmgr.DefaultKeyScopes[rg.Intn(4)], uint32(rg.Intn(2))
 	var firstBatchLast int // filled after the wallet's birthday is known; boundary placement uses an estimate
 	for h := 1; h <= c.blocks; h++ {
 		var txs []*wire.MsgTx
@@ -155,7 +167,20 @@ func runCase(r *evid.Run, dir string, cs int64, idx int) {
 		}
 		for i := 0; i < pays; i++ {
 			b := br{waddrmgr.DefaultKeyScopes[rg.Intn(4)], uint32(rg.Intn(2))}
+			if c.resume {
+				// resumed recoveries: mostly one scope, mostly its internal branch, so
+				// that the two branches' persisted counts differ widely at the resume point
+				if rg.Intn(4) != 0 {
+					b.scope = favScope
+				}
+				if rg.Intn(5) != 0 {
+					b.branch = favBranch
+				}
+			}
 			idx := uint32(rg.Intn(int(next[b] + c.W)))
+			if c.resume && b.scope == favScope && b.branch == favBranch {
+				idx = next[b] + uint32(rg.Intn(int(c.W))) // keeps climbing
+			}
 			if rg.Intn(3) == 0 {
 				idx = next[b] + c.W - 1 // the far edge of the look-ahead
 			}
@@ -288,6 +313,18 @@ func runCase(r *evid.Run, dir string, cs int64, idx int) {
 			return nil
 		}
 	}
+	if c.resume {
+		var first int32 = -1
+		ch.FilterReqHook = func(call int, fh int32) error {
+			if first < 0 {
+				first = fh
+			}
+			if fh >= first+2000 && atomic.CompareAndSwapInt32(&failed, 0, 1) {
+				return errors.New("injected FilterBlocks failure at the start of the second batch")
+			}
+			return nil
+		}
+	}
 	openDone := make(chan error, 1)
 	go func() { openDone <- h.Open(c.W, c.unlocked) }()
 	// waitOpen waits for the pending Open.  Decided on logical steps, not time:
@@ -349,6 +386,9 @@ func runCase(r *evid.Run, dir string, cs int64, idx int) {
 	}
 	if atomic.LoadInt32(&failed) == 1 {
 		r.Hit("recoveries-interrupted-by-backend-error", 1)
+		if c.resume {
+			r.Hit("recoveries-resumed-after-a-committed-batch", 1)
+		}
 	}
 	w := h.W
 	// (1) balance
@@ -621,6 +661,7 @@ func main() {
 	r.Require("payments", 300)
 	r.Require("batch-boundary-chains", 1)
 	r.Require("recoveries-interrupted-by-backend-error", 3)
+	r.Require("recoveries-resumed-after-a-committed-batch", 1)
 	r.Require("lookahead-invariant-checks", 2000)
 	os.Exit(r.Finish())
 }
